@@ -9,7 +9,8 @@ git -C /repo diff --quiet || { echo "/repo has uncommitted changes"; exit 2; }
 git -C /repo apply "$PWD/$dir/patch.diff" || exit 2
 trap 'git -C /repo checkout -- . ' EXIT
 s=$(date +%s)
-GOSYM_SEEDEVAL=1 ./check $prop quick > work/seed_$id.log 2>&1   # GOSYM_SEEDEVAL: evidence of a seeded tree goes to work/, not evidence/
+case $prop in C01|C02|C08|C11|C16) tier=thorough;; *) tier=quick;; esac   # rotating quick tiers: evaluate on the whole instance list
+GOSYM_SEEDEVAL=1 ./check $prop $tier > work/seed_$id.log 2>&1   # GOSYM_SEEDEVAL: evidence of a seeded tree goes to work/, not evidence/
 rc=$?
 e=$(date +%s)
 echo "seed $id property $prop: rc=$rc ($((e-s))s) $(grep -c '^VIOLATION' work/seed_$id.log) violation lines"
